@@ -52,7 +52,7 @@ DYNAMIC = {
     # a reachable value lost after an upgrade-and-store / a barriered adoption / a resurrection is a
     # violation of the weak / barrier / finalization property too: C01's monitor counts for them
     "C05": dict(profiles=["weak", "finalize"], mode="od", tags=["C05", "C01"]),
-    "C06": dict(profiles=["barrier", "metrics", "weak"], mode="od", tags=["C06", "C01"]),
+    "C06": dict(profiles=["barrier", "metrics", "weak"], mode="od", tags=["C06", "C01", "C05"]),
     "C07": dict(profiles=["finalize"], mode="od", tags=["C07", "C01"]),
     "C08": dict(profiles=["protocol", "pacing", "finalize"], mode="sd", tags=["C08"]),
     "C09": dict(profiles=["pacing", "protocol", "soak"], mode="sd", tags=["C09"]),
